@@ -287,6 +287,10 @@ type pipeSpec struct {
 	maxPoints   int
 	pause       func(r *rng.R) time.Duration
 	stale       bool // some pushes carry a staleness marker: a number data point without value, flag NoRecordedValue
+	// one push in the middle is LARGE: largePoints points with a pad attribute of largePad bytes each,
+	// more than one frame of the writer, so that the writer sends frames (and the receiver
+	// acknowledges them) while PushMetrics is still writing the batch
+	largePoints, largePad int
 }
 
 type pushRec struct {
@@ -333,6 +337,9 @@ func runPipelineCase(name string, sp pipeSpec, seed uint64) *caseOut {
 				for p := 0; p < sp.pushes; p++ {
 					tag := fmt.Sprintf("e%d-g%d-p%d", e, g, p)
 					md := genMetrics(r, tag, 1+r.Intn(sp.maxPoints))
+					if sp.largePoints > 0 && p == sp.pushes/2 {
+						md = genMetricsPad(r, tag, sp.largePoints, sp.largePad)
+					}
 					nstale := 0
 					if sp.stale && r.Intn(2) == 0 {
 						addStalePoint(md, tag)
@@ -658,6 +665,11 @@ func runC19(want func(string) bool) {
 	for k := 0; k < 8*mult; k++ {
 		comp := []string{"none", "zstd"}[k%2]
 		add(fmt.Sprintf("pipe-multi-%d", k), pipeSpec{exporters: 2 + r.Intn(2), compression: comp, goroutines: 1 + r.Intn(4), pushes: 3 + r.Intn(8), maxPoints: 16, pause: aroundFlush})
+	}
+	for k := 0; k < 2*mult; k++ {
+		comp := []string{"none", "zstd"}[k%2]
+		add(fmt.Sprintf("pipe-large-%d", k), pipeSpec{exporters: 1, compression: comp, goroutines: 1, pushes: 5, maxPoints: 8, pause: aroundFlush,
+			largePoints: 30000 + r.Intn(5000), largePad: 700 + r.Intn(300)})
 	}
 	runCases(4, jobs)
 }
